@@ -58,6 +58,10 @@ func Equal(x, y any) bool {
 		switch y := y.(type) {
 		case Map:
 			return equalMap(x, y, Map.Iterator, Map.Index)
+		case Equaler:
+			// An Equaler decides for itself, even when it is a struct that
+			// looks like a field map; this keeps Equal symmetric.
+			return y.Equal(x)
 		default:
 			if xKeys := GetFieldMapKeys(y); xKeys != nil {
 				return equalFieldMapAndMap(y, xKeys, x)
@@ -69,6 +73,8 @@ func Equal(x, y any) bool {
 			switch y := y.(type) {
 			case Map:
 				return equalFieldMapAndMap(x, xKeys, y)
+			case Equaler:
+				return y.Equal(x)
 			default:
 				if yKeys := GetFieldMapKeys(y); yKeys != nil {
 					return equalFieldMapAndFieldMap(x, xKeys, y, yKeys)
